@@ -67,7 +67,7 @@ def main():
             "guard": "pearl_verif",
             "enable": "RUSTFLAGS=--cfg pearl_verif (harness/.cargo/config.toml sets it for the harness build of /repo)",
             "baseline_off_cmd": "cd /repo && cargo test --workspace --no-fail-fast --offline",
-            "source_commits": ["cae4c50", "790a606"],
+            "source_commits": ["cae4c50", "4216739"],
             "add_only": True,
         },
         "engines": [{
@@ -77,7 +77,7 @@ def main():
         }],
         "checks": checks,
         "not_applicable": na,
-        "notes": "fix: commits in /repo: 1b4de29 (C15 E1), c944800 (C04/C11 E2), 1a06a96 (C13 E3), 62e8e7f (C03 E4), 2b9bef3 (C12 E13), 6bfe6df (C07/C03 E9); see known_findings.json and DESIGN.md section 5",
+        "notes": "fix: commits in /repo: a311110 (C15 E1), 0b3a5fc (C04/C11 E2), 33c2a77 (C13 E3), 2eb3c52 (C03 E4), 1b4c650 (C12 E13), 225d28c (C07/C03 E9); see known_findings.json and DESIGN.md section 5",
     }
     json.dump(m, open(os.path.join(ROOT, 'MANIFEST.json'), 'w'), indent=1)
 
